@@ -577,6 +577,10 @@ func (pe *PolicyEngine) updatePodOwnersToRepresentativePodMapIfRequired(deletedP
 }
 
 func (pe *PolicyEngine) deleteNetworkPolicy(np *netv1.NetworkPolicy) error {
+	if np.Namespace == "" { // such a policy was stored in the default namespace by insertNetworkPolicy
+		np = np.DeepCopy()
+		np.Namespace = metav1.NamespaceDefault
+	}
 	if policiesMap, ok := pe.netpolsMap[np.Namespace]; ok {
 		delete(policiesMap, np.Name)
 		if len(policiesMap) == 0 {
